@@ -149,8 +149,9 @@ theorem feed_untouches {T now : Nat} {sp : TD Key Msg} {req : Msg} {k : Key}
   cases hb : req.block1 with
   | none => rw [feed_none hb]; exact Untouches.refl _ _ _ _
   | some b =>
-    rcases feed_cases T now sp req b hb with ⟨h0, e⟩ | ⟨h0, _, e⟩ | ⟨h0, self, er, hl, ha, e⟩ |
-        ⟨h0, self, self', hl, ha, e⟩
+    rcases feed_cases T now sp req b hb with ⟨h0, _, e⟩ | ⟨h0, _, e⟩ | ⟨h0, _, e⟩ |
+        ⟨h0, self, er, hl, ha, e⟩ | ⟨h0, self, self', hl, ha, e⟩
+    · rw [e]; exact Untouches.refl _ _ _ _
     · rw [e]
       split
       · exact untouches_set _ _ hne
@@ -362,11 +363,13 @@ theorem accepted_spool {T : Nat} {st : RState} {cur : In} {b : Blk}
           (if b.num = 0 then (spoolAt T st cur).set T cur.now (blockKey cur.req) asm
            else ((spoolAt T st cur).accessed T cur.now (blockKey cur.req)).mutate (blockKey cur.req) asm) := by
   by_cases h0 : b.num = 0
-  · refine ⟨cur.req, [], Or.inl ⟨h0, rfl⟩, rfl, ?_⟩
-    rw [feed_first hb h0]
+  · have hs0 : sizeOk b cur.req.payload.length = true := by
+      rcases hacc with ⟨_, h⟩ | ⟨_, _, _, h, _⟩ <;> exact h
+    refine ⟨cur.req, [], Or.inl ⟨h0, rfl⟩, rfl, ?_⟩
+    rw [feed_first hb h0 hs0]
     simp [h0, hm]
   · rcases hacc with h | ⟨old, hl, hc, hs, hst⟩
-    · exact absurd h h0
+    · exact absurd h.1 h0
     · obtain ⟨self', hok⟩ : ∃ s, appendRequestBlock old cur.req b = .ok s :=
         ⟨_, append_ok_iff.mpr ⟨hc, hs, hst, rfl⟩⟩
       have hp : self'.payload = old.payload ++ cur.req.payload := by
@@ -394,7 +397,7 @@ theorem accepted_linv {T t0 : Nat} (hT : 0 < T) {st : RState} (h : RInv T t0 st)
       by simp [TD.set, accessed_items, alookup_ainsert_self]⟩
   · simp only [h0, ↓reduceIte]
     rcases hacc with e | ⟨old, hl, _, _, _⟩
-    · exact absurd e h0
+    · exact absurd e.1 h0
     · obtain ⟨D, hD, h1, h2⟩ := deathTime_accessed hset hl
       have hl' : alookup (blockKey cur.req)
           ((spoolAt T st cur).accessed T cur.now (blockKey cur.req)).items = some old := by
